@@ -5,7 +5,8 @@
   `get`/`at_path` and `insert` are total functions (`-index` taken in `Int`) accompanied by the
   predicates `atPathPanics` / `insertPanics` that say exactly when the Rust panics;
   `atPathO` / `insertO` combine them into an `Outcome`. `remove` threads the `Outcome`
-  through (its second panic, `x + 1 - negative_index`, depends on intermediate state).
+  through (its only panic is `-isize::MIN`; `x + 1 - negative_index` is a saturating subtraction
+  since e3023e2).
 -/
 import VrlModel.KindOps
 
@@ -278,9 +279,8 @@ def removeInner : Kind → Path → Bool → Outcome (Kind × Compact)
               -- `map_or(0, ..)`; no loop
               .ok (.mk p (.some array) o, if array.minLength ≤ 1 then .maybe else .never)
             | some largestKnownIndex =>
-              -- `x + 1 - negative_index`: subtraction overflow
-              if largestKnownIndex + 1 < negativeIndex then .panic
-              else
+              -- `(x + 1).saturating_sub(negative_index)` (truncated subtraction of `Nat`)
+              (
                 let minIndex := largestKnownIndex + 1 - negativeIndex
                 let res : Outcome Col :=
                   (List.range (largestKnownIndex + 1 - minIndex)).foldl
@@ -297,7 +297,7 @@ def removeInner : Kind → Path → Bool → Outcome (Kind × Compact)
                         .ok (arr.merge single2 false))
                     (.ok array)
                 Outcome.bind res fun array' =>
-                .ok (.mk p (.some array') o, if array'.minLength ≤ 1 then .maybe else .never)
+                .ok (.mk p (.some array') o, if array'.minLength ≤ 1 then .maybe else .never))
           else
             -- `get_positive_index`
             match array.largestKnownIndex with
